@@ -23,6 +23,10 @@
 #include "crypto_entropy.h"
 #include "aws_readkeys.h"
 #include "insecure_memzero.h"
+#include "cpusupport.h"
+#ifdef CPUSUPPORT_X86_AESNI
+#include "crypto_aes_aesni.h"
+#endif
 
 void * __real_malloc(size_t);
 void __real_free(void *);
@@ -440,6 +444,31 @@ main(void)
 			watching = 0;
 			h_free(k);
 			printf("freed%s | checked=%d", verdict[0] ? verdict : " zero", nfrees_checked);
+		} else if (hc_is("aeskeybad", 2)) {
+			/* aeskeybad <key hex> <len>: the AES-NI key expansion called directly (as an NDEBUG build of
+			 * crypto_aes_key_expand, or any other caller of this non-static function, would) with a key
+			 * length it does not support.  It must refuse — and the half-built key object it releases on
+			 * the way out must not hold any 8-byte window of the raw key. */
+			size_t klen, len = strtoull(hc_tok[2], NULL, 10), k2; uint8_t * k = hc_unhex(hc_tok[1], &klen);
+			int skipped = 1;
+
+#ifdef CPUSUPPORT_X86_AESNI
+			if (cpusupport_x86_aesni() && len <= klen && len != 16 && len != 32) {
+				void * K;
+
+				skipped = 0;
+				for (k2 = 0; k2 + 8 <= klen; k2++) add_pattern(k + k2);
+				watching = 1; expect_zero = 0;
+				K = crypto_aes_key_expand_aesni(k, len);
+				if (K != NULL) {
+					complain(" NOT-REFUSED len=%ld%.0ld", (long)len, 0L);
+					crypto_aes_key_free_aesni(K);
+				}
+				watching = 0;
+			}
+#endif
+			h_free(k);
+			printf("%s | checked=%d%s", verdict[0] ? verdict + 1 : "ok", nfrees_checked, skipped ? " skipped" : "");
 		} else if (strcmp(hc_tok[0], "aesctr") == 0 && hc_ntok >= 4) {
 			/* aesctr <key> <nonce> <reinit 0|1> <chunk>... : stream object zero at free */
 			size_t klen, len; uint8_t * k = hc_unhex(hc_tok[1], &klen), * b, * o;
